@@ -6,6 +6,7 @@ import (
 	"sync/atomic"
 	"time"
 
+	"github.com/formancehq/ledger/internal/verifhook"
 	"github.com/formancehq/stack/libs/go-libs/collectionutils"
 	"github.com/formancehq/stack/libs/go-libs/logging"
 	"github.com/pkg/errors"
@@ -119,12 +120,14 @@ func (defaultLocker *DefaultLocker) Lock(ctx context.Context, accounts Accounts)
 			if node.Value().tryLock(ctx, defaultLocker) {
 				node.Remove()
 				close(node.Value().acquired)
+				verifhook.Yield(ctx, "lock.grant", "intent", node.Value())
 			}
 			node = node.Next()
 		}
 	}
 
 	releaseIntent := func(ctx context.Context) {
+		verifhook.Yield(ctx, "lock.release", "intent", intent)
 		defaultLocker.mu.Lock()
 		defer defaultLocker.mu.Unlock()
 
@@ -136,6 +139,7 @@ func (defaultLocker *DefaultLocker) Lock(ctx context.Context, accounts Accounts)
 	acquired := intent.tryLock(ctx, defaultLocker)
 	if acquired {
 		defaultLocker.mu.Unlock()
+		verifhook.Yield(ctx, "lock.fast", "intent", intent)
 		logger.Debugf("Lock directly acquired")
 
 		return releaseIntent, nil
@@ -144,12 +148,15 @@ func (defaultLocker *DefaultLocker) Lock(ctx context.Context, accounts Accounts)
 	logger.Debugf("Lock not acquired, some accounts are already used, putting in queue")
 	defaultLocker.intents.Append(intent)
 	defaultLocker.mu.Unlock()
+	verifhook.Yield(ctx, "lock.enqueued", "intent", intent)
 
 	select {
 	case <-ctx.Done():
+		verifhook.Yield(ctx, "lock.select.done", "intent", intent)
 		defaultLocker.intents.RemoveValue(intent)
 		return nil, errors.Wrapf(ctx.Err(), "locking accounts: %s as read, and %s as write", accounts.Read, accounts.Write)
 	case <-intent.acquired:
+		verifhook.Yield(ctx, "lock.select.acquired", "intent", intent)
 		return releaseIntent, nil
 	}
 }
